@@ -56,8 +56,17 @@ def model_config(env_backend, env_ugp, env_ugdp, env_path, importable):
 class _BrokenFinder(object):
     """A module that is installed but cannot be loaded: the import system finds it, loading raises ImportError."""
 
-    def __init__(self, names):
+    def __init__(self, names, how="ImportError"):
         self.names = set(names)
+        self.how = how
+
+    def error(self, name):
+        # the ways a present module fails to load: its shared library, a missing compiled submodule, a missing dependency
+        if self.how == "submodule-not-found":
+            return ModuleNotFoundError("No module named '%s.%s' (simulated)" % (name, name), name="%s.%s" % (name, name))
+        if self.how == "dependency-not-found":
+            return ModuleNotFoundError("No module named 'libdep_of_%s' (simulated)" % name, name="libdep_of_%s" % name)
+        return ImportError("shared library of %s cannot be loaded (simulated)" % name)
 
     def find_spec(self, name, path=None, target=None):
         if name in self.names:
@@ -67,26 +76,27 @@ class _BrokenFinder(object):
         return None
 
     def create_module(self, spec):
-        raise ImportError("shared library of %s cannot be loaded (simulated)" % spec.name)
+        raise self.error(spec.name)
 
     def exec_module(self, module):
-        raise ImportError("cannot be loaded (simulated)")
+        raise self.error("module")
 
 
 class ModuleWorld(object):
     """Controls which optional backend modules are importable: present (sys.modules entry), absent (None entry) or
     present-but-broken (found by the import system, ImportError while loading)."""
 
-    def __init__(self, importable, spy=None, broken=()):
+    def __init__(self, importable, spy=None, broken=(), how="ImportError"):
         self.importable = set(importable)
         self.broken = set(broken)
+        self.how = how
         self.spy = spy
 
     def __enter__(self):
         self.saved = {}
         self.finder = None
         if self.broken:
-            self.finder = _BrokenFinder(MODULE_OF[n] for n in self.broken)
+            self.finder = _BrokenFinder((MODULE_OF[n] for n in self.broken), self.how)
             sys.meta_path.insert(0, self.finder)
         for name, mod in MODULE_OF.items():
             self.saved[mod] = sys.modules.get(mod, "absent")
@@ -144,14 +154,15 @@ def run_construction(part, lo, hi):
                             broken = [n for k, n in enumerate(PRIORITY) if nb >> k & 1 and n not in imp and n != "z3"]
                             if not broken or len(broken) != bin(nb).count("1"):
                                 continue
-                            part.count("evaluations")
-                            try:
-                                with ModuleWorld(imp, broken=broken):
-                                    c2 = Config()
-                                if c2.default_backend != want["default_backend"]:
-                                    part.violation("Config:broken-module-not-skipped", dict(case, broken=broken), {"got": c2.default_backend, "expected": want["default_backend"]})
-                            except Exception as e:
-                                part.violation("Config:broken-module-raises-" + type(e).__name__, dict(case, broken=broken), {"exception": repr(e)[:200]})
+                            for how in ("ImportError", "submodule-not-found", "dependency-not-found"):
+                                part.count("evaluations")
+                                try:
+                                    with ModuleWorld(imp, broken=broken, how=how):
+                                        c2 = Config()
+                                    if c2.default_backend != want["default_backend"]:
+                                        part.violation("Config:broken-module-not-skipped", dict(case, broken=broken, how=how), {"got": c2.default_backend, "expected": want["default_backend"]})
+                                except Exception as e:
+                                    part.violation("Config:broken-module-raises-" + type(e).__name__, dict(case, broken=broken, how=how), {"exception": repr(e)[:200]})
                     part.count("evaluations")
                     try:
                         c = Config()
@@ -213,7 +224,7 @@ def events():
     for kind in ("connected", "connected-acyclic", "division", "cycle", "crossable", "borders"):
         for arg in (None, True, False):
             ev.append(("graph", kind, arg))
-    for api in ("find_answer", "solve"):
+    for api in ("find_answer", "solve", "solve-nokey"):
         for b in [None] + NAMES + ["class", "bogus"]:
             ev.append((api, b))
     return ev
@@ -386,7 +397,10 @@ def run_histories(part, first_events, depth):
                             name = state["backend"] if barg is None else barg
                             s = Solver()
                             v = s.bool_var()
-                            s.add_answer_key(v)
+                            if api == "solve-nokey":
+                                api = "solve"  # the same call on a Solver without any answer key: same backend, same mode
+                            else:
+                                s.add_answer_key(v)
                             s.ensure(v)
                             spies.log = []
                             try:
@@ -416,10 +430,10 @@ def run_histories(part, first_events, depth):
                                     want_log = [("subprocess", exe, mode)]
                             part.outcome("%s:%s" % (api, want_out if want_out != "ok" else (want_log[0][1] if want_log else "-")))
                             if outcome != want_out or spies.log[:1] != want_log[:1] or (want_out == "ValueError" and spies.log):
-                                part.violation("%s[backend=%s]:wrong-dispatch" % (api, "default" if barg is None else ("class" if barg == "class" else "named")), case,
+                                part.violation("%s[backend=%s]:wrong-dispatch" % (ev[0], "default" if barg is None else ("class" if barg == "class" else "named")), case,
                                                {"observed": [outcome, spies.log[:2]], "expected": [want_out, want_log], "config": dict(state)})
                             else:
-                                part.add("nontrivial", (api, barg, tuple(sorted(state.items(), key=str))))
+                                part.add("nontrivial", (ev[0], barg, tuple(sorted(state.items(), key=str))))
                     part.add("states", tuple(sorted(state.items(), key=str)))
     finally:
         sugar_like.run_subprocess = saved_run
